@@ -82,6 +82,15 @@ def step (_ : Unit) (ts : List String) : Unit × String :=
         | some c => (if c.parent == none then "R+" else "R!") ++ dumpNode c ++ " t=" ++ hex c.textOf
         | none => "null"
       | _, _ => "bad-op"
+    | ["mut", h, k, j, _how] => match unhex h, k.toNat?, j.toNat? with
+      | some d, some k, some j =>
+        let r := decode d
+        if r.isNull then "null" else match pickDetached r k j with
+        -- first flag: parent() right after the mutation; then the survivor once everything else is released
+        | some c => (if c.parent == none then "M+" else "M!") ++ (if (survivor c).parent == none then "R+" else "R!")
+                      ++ dumpNode c ++ " t=" ++ hex c.textOf
+        | none => "skip"
+      | _, _, _ => "bad-op"
     | ["desc", h] => match unhex h with
       | some d =>
         let r := decode d
